@@ -110,6 +110,7 @@ def loop_checks(chk, prog, fn, reader, only_tail=False):
     ptr = ("vfld", nxt, "Some", "0")
     bid = call(DES % (D + "data_block_id::DataBlockId"), reader)
     name = None
+    byte_form = False
     found = {}
     n_next = 0
     for conds, kind, val in lp["paths"]:
@@ -140,6 +141,17 @@ def loop_checks(chk, prog, fn, reader, only_tail=False):
         true_lits = [c[2][1] for c, tr in lits if tr]
         for c, tr in lits:
             name = c[3] if name is None else name
+        if not lits:
+            # the name may be matched byte by byte (`match &id.data_name { b"VOL" => .. }`): three pinned bytes are that literal
+            dn = fld(okv(bid), "data_name")
+            sets = {}
+            for c in conds:
+                if len(c) == 3 and c[0][0] == "idx" and c[0][1] == dn and sym.is_c(c[0][2]):
+                    i = c[0][2][1]
+                    sets[i] = sym.rs_inter(sets.get(i, ((0, 255),)), c[2])
+            if set(sets) == {0, 1, 2} and all(len(rs) == 1 and rs[0][0] == rs[0][1] for rs in sets.values()):
+                true_lits = [bytes(sets[i][0][0] for i in range(3)).decode("latin1")]
+                byte_form = True
         upd_field, stored = None, None
         mv = val[lm]
         if mv[0] == "upd" and mv[1] == L:
@@ -166,6 +178,8 @@ def loop_checks(chk, prog, fn, reader, only_tail=False):
         chk.floor("type-31 iteration shapes", n_next, 10)
         return
     want_name = call("alloc::string::String::from_utf8_lossy", fld(okv(bid), "data_name"))
+    if name is None and byte_form:
+        chk.ob("R-WIRE", FN, True, "the dispatch compares the block id's own three name bytes", w, key="name-source")
     if name is not None:
         okn = name[0] == "call" and name[2] and name[2][0][0] == "call" and name[2][0][1].endswith("from_utf8_lossy") and name[2][0][2] == (fld(okv(bid), "data_name"),)
         chk.ob("R-WIRE", FN, okn, "the dispatch compares the block id's own three name bytes", w, key="name-source")
